@@ -20,9 +20,72 @@ MIRI_TARGET = os.path.join(common.TARGET, "miri")
 TSAN_TARGET = os.path.join(common.TARGET, "harness-tsan")
 
 
+_RUNTIME_PATHS = ("/rustc/", "/lib/rustlib/src/rust/library/")
+
+
+def _tsan_access_stacks(block):
+    """The stacks of the racing accesses of one ThreadSanitizer report (not the
+    thread-creation, heap-location or mutex stacks that follow them)."""
+    out, cur = [], None
+    for ln in block.splitlines():
+        if re.match(r"^  \S", ln):
+            if re.match(r"^  (Previous )?(atomic )?(read|write) of size", ln, re.I):
+                cur = []
+                out.append(cur)
+            else:
+                cur = None
+        elif cur is not None and re.match(r"^    #\d+ ", ln):
+            cur.append(ln.strip())
+    return out
+
+
+def _innermost_user_frame(stack):
+    """First frame that is neither the sanitizer runtime nor the standard
+    library: the code that performed the access."""
+    for fr in stack:
+        m = re.match(r"#\d+ (.*?) (/\S+?):(\d+)(?::\d+)? \(", fr)
+        if m and not any(r in m.group(2) for r in _RUNTIME_PATHS):
+            return m.group(1), m.group(2), m.group(3)
+    return None
+
+
+def _classify_tsan_race(prop, text, rep, what):
+    """A data-race report is ripgrep's if one of the two racing accesses was
+    performed by ripgrep code.  ripgrep frames further out (the closure that
+    spawned the thread, the caller of a third-party queue) do not make it so.
+    Returns True if the report was dealt with here."""
+    stacks = _tsan_access_stacks(text)
+    if "ThreadSanitizer: data race" not in text or not stacks:
+        return False
+    inner = [_innermost_user_frame(s) for s in stacks]
+    if any(f and f[1].startswith("/repo/crates/") for f in inner):
+        return False            # the general rule below names the ripgrep frame
+    if all(f and re.search(r"/crossbeam-(epoch|deque)-[^/]+/", f[1]) for f in inner):
+        # crossbeam-epoch publishes and reclaims through atomic::fence, which
+        # ThreadSanitizer does not model (crossbeam's own CI suppresses
+        # race:crossbeam_epoch and race:crossbeam_deque*steal for that reason)
+        rep["counters"]["tsan_reports_inside_crossbeam_fence_synchronisation"] = \
+            rep["counters"].get("tsan_reports_inside_crossbeam_fence_synchronisation", 0) + 1
+        return True
+    rep["inconclusive"] += 1
+    rep["notes"].append("tsan: both racing accesses are in third-party code (inconclusive): %s"
+                        % " / ".join("%s %s:%s" % f if f else "?" for f in inner)[:400])
+    return True
+
+
 def _classify(prop, tool, text, rep, what):
     """text: sanitizer/interpreter report"""
-    frames = re.findall(r"(/repo/crates/[^\s:]+:\d+)", text)
+    if tool == "tsan":
+        if _classify_tsan_race(prop, text, rep, what):
+            return
+        stacks = _tsan_access_stacks(text)
+        if stacks:
+            text_for_frames = "\n".join("\n".join(s) for s in stacks)
+        else:
+            text_for_frames = text
+    else:
+        text_for_frames = text
+    frames = re.findall(r"(/repo/crates/[^\s:]+:\d+)", text_for_frames)
     first = frames[0] if frames else None
     kind = "report"
     m = re.search(r"error: (Undefined Behavior|Data race[^\n]*|[^\n]{0,80})", text)
@@ -37,7 +100,7 @@ def _classify(prop, tool, text, rep, what):
         rep["violation_counts"][sig] = rep["violation_counts"].get(sig, 0) + 1
         if rep["violation_counts"][sig] <= 2:
             rep["violations"].append({"signature": sig, "what": "%s %s with a frame in ripgrep code (%s): %s" % (tool, kind, first, what),
-                                      "replay": {"tool": tool, "what": what, "report": text[-6000:]}})
+                                      "replay": {"tool": tool, "what": what, "report": text[:9000]}})
     else:
         rep["inconclusive"] += 1
         rep["notes"].append("%s report entirely in third-party code (inconclusive): %s" % (tool, text[-300:].replace("\n", " | ")))
@@ -194,11 +257,14 @@ def rg_sanitizer_leg(prop, kind, handler, clikind, total, per, extra=None):
         for name in sorted(os.listdir(san_dir)):
             text = open(os.path.join(san_dir, name), errors="replace").read()
             n += 1
-            key = re.sub(r"0x[0-9a-f]+|:\d+|\bT\d+\b", "", "".join(re.findall(r"#[0-3] [^\n]*", text)))[:400]
-            if key in seen:
-                continue
-            seen.add(key)
-            _classify(prop, kind, text, rep, "rg (%s) under the %s workload" % (kind, prop))
+            argv = text.split("\n", 1)[0]
+            blocks = [b for b in text.split("==================") if "WARNING: ThreadSanitizer" in b] or [text]
+            for b in blocks:
+                key = re.sub(r"0x[0-9a-f]+|:\d+|\bT\d+\b", "", "".join(re.findall(r"#[0-3] [^\n]*", b)))[:400]
+                if key in seen:
+                    continue
+                seen.add(key)
+                _classify(prop, kind, b, rep, "rg (%s) under the %s workload, %s" % (kind, prop, argv[:300]))
         rep["counters"]["%s_reports_seen" % kind] = n
         rep["counters"]["%s_distinct_reports" % kind] = len(seen)
         return rep
